@@ -38,6 +38,7 @@ def byte_stages(with_bitmaps=True):
     st = [
         {"name": "bytes-exh", "cmd": "bytes-exh", "configs": cfgs(NATIVE + EMU), "shards": shards(16, 16, 8, 16)},
         {"name": "bytes-pbt", "cmd": "bytes-pbt", "configs": cfgs(NATIVE + EMU + ["E-a64nn"]), "shards": shards(4, 16, 2, 8)},
+        {"name": "bytes-sweep", "cmd": "bytes-sweep", "configs": cfgs(NATIVE + EMU), "shards": shards(9, 9, 3, 9)},
     ]
     if with_bitmaps:
         st.append({"name": "bytes-bitmaps", "cmd": "bytes-bitmaps", "configs": cfgs(["N-auto"] + EMU), "shards": shards(8, 16, 2, 4)})
@@ -290,11 +291,11 @@ PLANS = {
                 "program runs in a FRESH mvexec process so the dispatch cache is uninitialised, all threads are released by a barrier and race to install the "
                 "implementation; every observed result is compared with what the same call returns when executed on its own after all threads have finished "
                 "(the property's 'what it would return in isolation'). Three forced CPU levels; Miri-owned schedules for a sample. "
-                "A second storm flavor does the same on haystacks of 64 bytes and more. Non-trivial: >= 2 threads whose first operation is the same dispatched routine, or >= 2 threads in one-shot memmem::find with needles of different lengths.",
+                "A second storm flavor does the same on haystacks of 64 bytes and more; a third one lets all threads hit the shared, so far unused Finder / FinderRev at once (find, rfind, find_iter and searches of 0..40-byte prefixes). Non-trivial: >= 2 threads whose first operation is the same dispatched routine, or >= 2 threads in one-shot memmem::find with needles of different lengths.",
         "stages": [
             {"name": "threads", "cmd": "threads", "configs": cfgs(NATIVE), "shards": shards(16, 16), "needs_mvexec": True, "args": ["--scale", "16"]},
             {"name": "miri-schedules", "kind": "miri-threads", "configs": cfgs(["N-auto", "M-x86", "M-avx2"]),
-             "programs": {"quick": 8, "thorough": 100}, "seeds": {"quick": 3, "thorough": 25}},
+             "programs": {"quick": 14, "thorough": 120}, "seeds": {"quick": 3, "thorough": 25}},
             {"name": "tsan-threads", "kind": "tsan-threads", "configs": cfgs(["N-auto", "T-tsan"]), "thorough_only": True,
              "programs": {"quick": 0, "thorough": 200}, "repeats": {"quick": 0, "thorough": 10}},
         ],
